@@ -1131,8 +1131,11 @@ pub fn gen_dyn_expr(ch: &mut Chooser, srcs: &[SourceRef], ty: &str) -> Option<St
         ("int", 2) => format!("{} + {}", source_exprs(ch, srcs, "int")?, 1 + ch.below(9)),
         ("int", 3) => format!("Math.max({}, {})", source_exprs(ch, srcs, "int")?, ch.below(50)),
         ("int", _) => format!("{} ? {} : {}", source_exprs(ch, srcs, "bool")?, ch.below(10), 10 + ch.below(10)),
-        ("double", 0) | ("double", 1) | ("double", 2) => source_exprs(ch, srcs, "double")?,
-        ("double", _) => format!("{} * 2.5", source_exprs(ch, srcs, "double")?),
+        ("double", 0) | ("double", 1) => source_exprs(ch, srcs, "double")?,
+        ("double", 2) => format!("{} * 2.5", source_exprs(ch, srcs, "double")?),
+        // (std::fmod, <cmath>) and (std::min, <algorithm>): several standard headers in one support header
+        ("double", 3) => format!("{} % 2.5", source_exprs(ch, srcs, "double")?),
+        ("double", _) => format!("Math.min({}, 1.5)", source_exprs(ch, srcs, "double")?),
         ("str", 0) | ("str", 1) => source_exprs(ch, srcs, "str")?,
         ("str", 2) => format!("\"[\" + {} + \"]\"", source_exprs(ch, srcs, "str")?),
         ("str", 3) => format!("{} ? qsTr(\"on\") : qsTr(\"off\")", source_exprs(ch, srcs, "bool")?),
@@ -1152,6 +1155,16 @@ pub fn add_dynamic(ch: &mut Chooser, root: &mut Obj, per_obj_num: u32, per_obj_d
     for p in paths {
         let o = root.at(&p);
         if is_separator(o) {
+            // a separator with a signal handler is an ordinary action (in every mode): its `separator: true`
+            // becomes a support-code binding, the handler a callback
+            if ch.chance(1, 8) {
+                let (sig, body) = *ch.pick(&[("triggered", "console.log(\"sep\")"), ("toggled", "{ console.log(\"sep\") }"), ("triggered", "function() { console.log(\"sep\") }")]);
+                let o = root.at_mut(&p);
+                dyns.push(Dyn { obj: p.clone(), bind: 0, kind: DynKind::Binding { prop: "separator".to_owned(), setter: "setSeparator".to_owned() } });
+                o.binds.push(Bind::new(format!("on{}", cap(sig)), body));
+                dyns.push(Dyn { obj: p.clone(), bind: o.binds.len() - 1, kind: DynKind::Handler { signal: sig.to_owned() } });
+                ch.label("separator-action-with-handler");
+            }
             continue;
         }
         let k = kind_of(&o.class);
